@@ -28,10 +28,11 @@ var Check = core.Check{
 
 // Case is the replayable unit.
 type Case struct {
-	Kind  string `json:"kind"` // dsl | corpus
-	Prog  string `json:"prog,omitempty"`
-	Input string `json:"input,omitempty"` // hex
-	Force bool   `json:"force,omitempty"`
+	Kind      string `json:"kind"` // dsl | corpus
+	Prog      string `json:"prog,omitempty"`
+	Input     string `json:"input,omitempty"` // hex
+	Force     bool   `json:"force,omitempty"`
+	RootArray bool   `json:"root_array,omitempty"`
 	// corpus
 	File   string `json:"file,omitempty"`
 	Format string `json:"format,omitempty"`
@@ -47,23 +48,27 @@ var inputs = [][]byte{
 func bitsOf(b []byte) []bool { return []bool(core.BitsFromBytes(b)) }
 
 // DecodeDSL runs the program through fq's real decode API.
-func DecodeDSL(p dsl.Prog, input []byte, force bool) (*decode.Value, error, any) {
+func DecodeDSL(p dsl.Prog, input []byte, force bool, rootArray bool) (*decode.Value, error, any) {
 	var dv *decode.Value
 	var err error
+	g := dsl.GroupFor(p)
+	if rootArray {
+		g = dsl.GroupForArray(p)
+	}
 	pv, _ := core.Protect(func() {
-		dv, _, err = decode.Decode(context.Background(), bitio.NewBitReader(input, -1), dsl.GroupFor(p),
+		dv, _, err = decode.Decode(context.Background(), bitio.NewBitReader(input, -1), g,
 			decode.Options{IsRoot: true, FillGaps: true, Force: force})
 	})
 	return dv, err, pv
 }
 
 // judgeDSL returns (signature, message) of the first discrepancy or "".
-func judgeDSL(p dsl.Prog, input []byte, force bool) (string, string) {
-	dv, err, pv := DecodeDSL(p, input, force)
+func judgeDSL(p dsl.Prog, input []byte, force bool, rootArray bool) (string, string) {
+	dv, err, pv := DecodeDSL(p, input, force, rootArray)
 	if pv != nil {
 		return "dsl:panic:" + trunc(core.PanicString(pv), 60), fmt.Sprintf("decode panicked: %v", pv)
 	}
-	ref := dsl.Ref(p, bitsOf(input), force, 1)
+	ref := dsl.RefRoot(p, bitsOf(input), force, 1, rootArray)
 	if dv == nil {
 		return "dsl:no-tree", fmt.Sprintf("decode returned no tree (err=%v); reference expects a (partial) tree", err)
 	}
@@ -141,11 +146,20 @@ func runDSL(r *core.Run) {
 		n++
 		for ii, in := range inputs {
 			for _, force := range []bool{false, true} {
-				sig, msg := judgeDSL(p, in, force)
+				sig, msg := judgeDSL(p, in, force, false)
 				evals++
 				if sig != "" {
 					r.Violate(sig, fmt.Sprintf("prog %s input %x force=%v: %s", p, in, force, msg),
 						Case{Kind: "dsl", Prog: p.String(), Input: fmt.Sprintf("%x", in), Force: force})
+				}
+			}
+			if ii == 0 {
+				// root array formats (RootArray: true): gap fields are appended to an array
+				sig, msg := judgeDSL(p, in, false, true)
+				evals++
+				if sig != "" {
+					r.Violate(sig+":rootarray", fmt.Sprintf("prog %s (root array) input %x: %s", p, in, msg),
+						Case{Kind: "dsl", Prog: p.String(), Input: fmt.Sprintf("%x", in), RootArray: true})
 				}
 			}
 			if ii == 0 {
@@ -181,9 +195,9 @@ func replay(r *core.Run, raw json.RawMessage) bool {
 		}
 		var in []byte
 		fmt.Sscanf(c.Input, "%x", &in)
-		sig, msg := judgeDSL(p, in, c.Force)
+		sig, msg := judgeDSL(p, in, c.Force, c.RootArray)
 		fmt.Printf("  prog:  %s\n  input: %x force=%v\n  %s %s\n", p, in, c.Force, sig, msg)
-		dv, derr, _ := DecodeDSL(p, in, c.Force)
+		dv, derr, _ := DecodeDSL(p, in, c.Force, c.RootArray)
 		if dv != nil {
 			real := dsl.FlattenReal(dv)
 			fmt.Println("  real tree (err:", derr, "):")
@@ -191,7 +205,7 @@ func replay(r *core.Run, raw json.RawMessage) bool {
 				fmt.Printf("    %-20s %+v\n", k, real[k])
 			}
 		}
-		exp := dsl.FlattenRef(dsl.Ref(p, bitsOf(in), c.Force, 1).Root)
+		exp := dsl.FlattenRef(dsl.RefRoot(p, bitsOf(in), c.Force, 1, c.RootArray).Root)
 		fmt.Println("  reference tree:")
 		for _, k := range dsl.SortedKeys(exp) {
 			fmt.Printf("    %-20s %+v\n", k, exp[k])
